@@ -76,6 +76,14 @@ def minOf : List Nat → Nat
   | [] => 0
   | x :: xs => xs.foldl Nat.min x
 
+/-- the general case of `max_layout_dimensions` on the non-empty dimensions: highest minimum,
+    smallest maximum but at least the highest preferred size, priority to the minimum. -/
+def maxDimsNZ (nz : List Dim) : Option Dim :=
+  let mn := maxOf (nz.map (·.min))
+  let pr := maxOf (nz.map (·.pref))
+  let mx0 := Nat.max (minOf (nz.map (·.max))) pr
+  mkDim (some mn) (some (if mn > mx0 then mn else mx0)) none (some pr)
+
 /-- `max_layout_dimensions` -/
 def maxDims (ds : List Dim) : Option Dim :=
   match ds with
@@ -84,13 +92,7 @@ def maxDims (ds : List Dim) : Option Dim :=
     if ds.all Dim.isZero then some d0
     else
       let nz := ds.filter fun d => !d.isZero
-      if nz.isEmpty then mkDim none none none none
-      else
-        let mn := maxOf (nz.map (·.min))
-        let pr := maxOf (nz.map (·.pref))
-        let mx0 := Nat.max (minOf (nz.map (·.max))) pr
-        let mx := if mn > mx0 then mn else mx0
-        mkDim (some mn) (some mx) none (some pr)
+      if nz.isEmpty then mkDim none none none none else maxDimsNZ nz
 
 /-! ### utils.take_using_weights as a state machine -/
 
